@@ -325,6 +325,8 @@ var (
 // where each payload lives.
 type CR3 struct {
 	Bytes []byte
+	// MoovFirst: the uninterpreted box in front of the Canon uuid box inside moov (End == 0: none)
+	MoovFirst Span
 	// absolute [start,end) of every top-level box in order
 	Top []Span
 	// payloads handed to callbacks
@@ -494,6 +496,9 @@ func DrawCR3(l *core.Lane, o CR3Opts) *CR3 {
 	c.Top = append(c.Top, Span{"moov", moovStart, len(out)})
 	c.Moov = Span{"moov", moovStart, len(out)}
 	c.Canon = Span{"uuid-canon", moovStart + mh + preMoov, moovStart + mh + preMoov + len(canon)}
+	if preMoov > 0 {
+		c.MoovFirst = Span{"moov-child", moovStart + mh, moovStart + mh + preMoov}
+	}
 	topExtra()
 	c.Map = append(c.Map, FieldSpan{"moov.size", moovStart, 4}, FieldSpan{"canon.size", moovStart + mh + preMoov, 4})
 	canonPayload := moovStart + mh + preMoov + 8 + 16
